@@ -12,6 +12,19 @@ SYS = ["open", "close", "opendir", "readdir", "closedir", "chdir", "umask", "rea
 FUNCS = ["qmail-send.c:main", "qmail-send.c:todo_init", "qmail-send.c:todo_selprep", "qmail-send.c:todo_do",
          "trigger.c:trigger_set", "trigger.c:trigger_selprep", "trigger.c:trigger_pulled", "open_read.c:open_read"]
 
+def startup_obligation():
+    """qmail-send main() prologue: mutex refusal (C02) and concurrency clamp (C04); used by harness/C02 and harness/C04"""
+    return Obl("send_startup", "../C16/wake.c",
+        progs=[Prog("qmail-send.c", main_as="send_main", cut=CUT)], repo=UNITS, lib=["arena_stralloc.c"],
+        defines={"ARENA_CAP": 64, "ARENA_SLOTS": 8, "MODE": 2, "K": 1, "NINJ": 1}, sysrename=SYS, functions=["qmail-send.c:main (prologue)"],
+        unwind={"send_main~while (!flagexitasap": 3}, unwind_default=20, timeout=600,
+        cuts=["getcontrols -> configured concurrency set by the harness (symbolic <= 1000)", "initialisers of other subsystems -> no-ops"],
+        assumes=["lock_exnb result, each spawner's announcement byte / EOF / error, configured concurrency: symbolic"],
+        claim="C02: with lock/sendmutex held by another daemon qmail-send exits 111 before reading from the spawners, opening the trigger or scanning todo/; "
+              "C04: concurrency[c] = min(configured, byte announced by the spawner) before the main loop starts",
+        expect_witnesses=["second_daemon_refused", "spawner_missing", "started_with_clamped_concurrency"])
+
+
 def obligations(tier):
     common = dict(progs=[Prog("qmail-send.c", main_as="send_main", cut=CUT)], repo=UNITS, lib=["arena_stralloc.c"],
                   defines={"ARENA_CAP": 64, "ARENA_SLOTS": 8}, sysrename=SYS, functions=FUNCS,
@@ -21,7 +34,7 @@ def obligations(tier):
                          "todo/ directory stream: entries linked before opendir are returned; entries linked while it is open may or may not be",
                          "injector automaton advanced by a symbolic number of steps inside every daemon system call",
                          "processing of a todo entry is cut at open_read(todo/N) (covered by C02/C03/C10)"])
-    ks = [(5, 1)] if tier == "quick" else [(5, 1), (6, 1), (5, 2), (7, 2)]
+    ks = [(5, 1), (6, 2)] if tier == "quick" else [(5, 1), (6, 2), (8, 2), (9, 2), (7, 3)]
     return [
         Obl("lost_wakeup", "wake.c", grid=[{"K": k, "NINJ": n} for (k, n) in ks],
             defines=dict(common["defines"], MODE=0), std_checks=False,
